@@ -58,7 +58,7 @@ def precheck (p : Pool) (r : RawOp) : Bool :=
   | 'X' => alive o 9
   | 'c' | 'P' | 'p' => alive o && alive s
   | 'm' => alive o && alive s && o != s
-  | 'R' | 'a' | 'e' | 'S' | 'T' | 'E' => alive o
+  | 'R' | 'a' | 'e' | 'S' | 'T' | 'E' | 'w' | 'Y' => alive o
   | 'U' => o == 8 && (p.objs 8).isNone
   | 'b' | 'B' | 'h' | 'H' => alive o && (p.objs 8).isSome
   | 'G' | 'g' => dead o && (p.objs 8).isSome
@@ -188,6 +188,13 @@ def toSOp (p : Pool) (r : RawOp) (cur : ObsStep) : Option SOp :=
   | 'a' => some (.appendChar o s)
   | 'e' => some (.appendChar o s)
   | 'S' => some (.setText o (parseUnits 8 r.tail) (modeOf (r.str 1)))
+  | 'w' =>
+    -- o.set(o.c_str() + k, n, mode): the bytes are copied into a temporary buffer first, so aliasing is harmless
+    let v := valueOf p o
+    let k := min (r.num 1) v.length
+    let n := min (r.num 2) (v.length - k)
+    some (.setText o ((v.drop k).take n) (modeOf (r.str 3)))
+  | 'Y' => some (.setText o (upToNul (valueOf p o)) .checkValidity)
   | 'T' | 'E' =>
     let w := r.num 2
     let enc : Utf.Enc := if w == 16 then .utf16 else .utf32
@@ -324,6 +331,10 @@ def expectValue (vals : Nat → Option Value.V) (r : RawOp) : List (Nat × Value
   | 'P' => [(o, Value.append (get o) (get s))]
   | 'p' => [(o, Value.append (get o) (Value.mapKnown upToNul (get s)))]
   | 'S' => if modeOf (r.str 1) == .substituteInvalid then [(o, .unspecified)] else [(o, .known (parseUnits 8 r.tail))]
+  | 'w' =>
+    if modeOf (r.str 3) == .substituteInvalid then [(o, .unspecified)] else
+    [(o, Value.mapKnown (fun v => let k := min (r.num 1) v.length; (v.drop k).take (min (r.num 2) (v.length - k))) (get o))]
+  | 'Y' => [(o, Value.mapKnown upToNul (get o))]
   | 'U' => [(8, .known (parseUnits 8 r.tail))]
   | 'b' | 'G' => let m := modeOf (r.str 1); if m == .substituteInvalid then [(o, .unspecified)] else [(o, get 8), (8, .unspecified)]
   | 'B' | 'g' => let m := modeOf (r.str 1); if m == .substituteInvalid then [(o, .unspecified)] else [(o, get 8)]
